@@ -207,7 +207,7 @@ pub fn run(ctx: &Ctx) {
     // decoder negatives
     let foreign = prop_oneof![
         6 => prop::sample::select(vec!["-", "_", " ", "\n", "\r", "\t", "!", "\"", "#", "$", "%", "&", "'", "(", ")", "*", ",", ".", ":", ";", "<", ">", "?", "@", "[", "\\", "]", "^", "`", "{", "|", "}", "~", "\u{0}", "\u{7f}"]).prop_map(|s| s.to_string()),
-        2 => prop::sample::select(vec!["Ł", "é", "ж", "中", "\u{141}", "\u{161}", "\u{17a}", "\u{12b}", "\u{13d}", "\u{2f}\u{301}", "Ａ", "\u{1d7d8}"]).prop_map(|s| s.chars().next().unwrap().to_string()),
+        2 => prop::sample::select(vec!["Ã", "©", "ÿ", "\u{80}", "\u{a0}", "Ł", "é", "ж", "中", "\u{141}", "\u{161}", "\u{17a}", "\u{12b}", "\u{13d}", "\u{2f}\u{301}", "Ａ", "\u{1d7d8}"]).prop_map(|s| s.chars().next().unwrap().to_string()),
         1 => any::<char>().prop_filter("outside alphabet", |c| !(c.is_ascii_alphanumeric() || *c == '+' || *c == '/' || *c == '=')).prop_map(|c| c.to_string()),
     ];
     let neg = (proptest::collection::vec(any::<u8>(), 1..=48), any::<u16>(), foreign).prop_map(|(d, pos, ch)| Case::Negative { data: Bytes(d), pos, ch });
